@@ -8,7 +8,8 @@
    cast_rename          the dataset-level measure renaming rule.
 
    *partial*: modelled exactly are the 16 pairs over {Integer (Z), Number (Q), String, Boolean} and the purely textual time
-   pairs Date<->String, Time->String, Duration<->String (Date/Time/Duration values are their canonical strings:
+   pairs Date<->String, Time->String, Duration<->String, and Time->Time_Period (calendar-exact over Base/Calendar and
+   Model/Period; Date/Time/Duration values are their canonical strings:
    "YYYY-MM-DD", "YYYY-MM-DD/YYYY-MM-DD", one of A S Q M W D).  Every other pair involving Time, Date, Time_Period, Duration
    (period arithmetic, interval matching, output formats, Date values with a time part) is covered by the correspondence
    against the engine only, not by this model.  Number->String is modelled for rationals with a finite decimal expansion and
@@ -17,7 +18,7 @@
    Strings are byte strings; whitespace = the space character. *)
 From Coq Require Import ZArith QArith Qreduction String Ascii List Bool DecimalString.
 Import ListNotations.
-From VTL Require Import Base.Val Base.Calendar Model.Types.
+From VTL Require Import Base.Val Base.Calendar Model.Types Model.Period.
 Open Scope Z_scope.
 
 Definition ERR_SEM : string := "1-1-5-4".          (* SemanticError raised by Cast.check_without_mask *)
@@ -158,12 +159,49 @@ Definition parse_duration (s : string) : option string :=
   | None => if existsb (String.eqb u) short_durations then Some u else None
   end.
 
+(* ------------------------------------------------------------------------------------------------ Time -> Time_Period
+   calendar-exact, over Base/Calendar day numbers and the periods of Model/Period.v: the period whose first and last day are
+   exactly the two dates of the interval (a one-day interval is the daily period; a week is labelled with its ISO week-year). *)
+Definition fits (a b : Z) (p : period) : bool := (start_date p =? a) && (end_date p =? b).
+Definition interval_period (a b : Z) : option period :=
+  find (fits a b) (map (fun i => period_of_date i a) [ID; IA; IS; IQ; IM; IW]).
+
+(* "YYYY-MM-DD" (calendar-valid) -> day number *)
+Definition date_days (s : string) : option Z :=
+  if valid_date_str s then
+    match num_of (substring 0 4 s) 0, num_of (substring 5 2 s) 0, num_of (substring 8 2 s) 0 with
+    | Some y, Some m, Some d => Some (days_from_civil y m d)
+    | _, _, _ => None
+    end
+  else None.
+(* "YYYY-MM-DD/YYYY-MM-DD" with start <= end *)
+Definition parse_interval (s : string) : option (Z * Z) :=
+  if (String.length s =? 21)%nat && String.eqb (substring 10 1 s) "/" then
+    match date_days (substring 0 10 s), date_days (substring 11 10 s) with
+    | Some a, Some b => if a <=? b then Some (a, b) else None
+    | _, _ => None
+    end
+  else None.
+Definition ind_letter (i : ind) : string :=
+  match i with IA => "" | IS => "S" | IQ => "Q" | IM => "M" | IW => "W" | ID => "D" end%string.
+(* the default (vtl) output format: 2020, 2020S1, 2020Q3, 2020M2, 2020W15, 2020D100 *)
+Definition period_vtl (p : period) : string :=
+  match p_ind p with
+  | IA => z_str (p_year p)
+  | i => (z_str (p_year p) ++ ind_letter i ++ z_str (p_num p))%string
+  end.
+Definition interval_to_period_str (s : string) : option string :=
+  match parse_interval s with
+  | Some (a, b) => option_map period_vtl (interval_period a b)
+  | None => None
+  end.
+
 (* ------------------------------------------------------------------------------------------------ the conversion rules *)
 Definition modelled (s d : ty) : bool :=
   match s, d with
   | (TString | TNumber | TInteger | TBoolean), (TString | TNumber | TInteger | TBoolean) => true
   | TDate, TString | TString, TDate | TDate, TDate => true
-  | TTime, TString | TTime, TTime => true
+  | TTime, TString | TTime, TTime | TTime, TPeriod => true
   | TDuration, TString | TString, TDuration | TDuration, TDuration => true
   | _, _ => false
   end.
@@ -212,6 +250,7 @@ Definition cast_val (src dst : ty) (v : val) : res val :=
     | TDate, TString, VStr s | TDate, TDate, VStr s => Ok (VStr s)
     | TString, TDate, VStr s => if valid_date_str s then Ok (VStr s) else Err ERR_RT
     | TTime, TString, VStr s | TTime, TTime, VStr s => Ok (VStr s)
+    | TTime, TPeriod, VStr s => of_opt (option_map VStr (interval_to_period_str s))   (* code's reading; the doc table has no such cell *)
     | TDuration, TString, VStr s | TDuration, TDuration, VStr s => Ok (VStr s)
     | TString, TDuration, VStr s => of_opt (option_map VStr (parse_duration s))
     | _, _, _ => Err ERR_TYPE
@@ -243,7 +282,8 @@ Definition cast2 (a b c : ty) (v : val) : res val := bind (cast_val a b v) (cast
 Definition total_pair (s d : ty) : bool :=
   modelled s d &&
   negb (ty_eqb s TString && (ty_eqb d TInteger || ty_eqb d TNumber || ty_eqb d TDate || ty_eqb d TDuration)) &&
-  negb (ty_eqb s TNumber && ty_eqb d TString).
+  negb (ty_eqb s TNumber && ty_eqb d TString) &&
+  negb (ty_eqb s TTime && ty_eqb d TPeriod).
 
 (* keys of the regenerated pair tables *)
 Definition key2_eqb (a b : ty * ty) : bool := ty_eqb (fst a) (fst b) && ty_eqb (snd a) (snd b).
